@@ -43,6 +43,19 @@ static Str emulate_low_byte_escape(const std::wstring &w, bool plus, bool nb) {
 template <class C> struct Runner {
     typedef Api<C> A; FenceBuf in; OutBuf out; Ctx *ctx; Local *lc;
     Runner(Ctx *c, Local *l, size_t ip = 4, size_t op = 8) : in(ip), out(op), ctx(c), lc(l) {}
+    // input and output in one arena, the output area beginning exactly where the input range ends (adjacent, not overlapping)
+    void adjacent_case(const Str &s) {
+        std::basic_string<C> w = widen<C>(s);
+        for (int plus = 0; plus < 2; plus++) for (int nb = 0; nb < 2; nb++) {
+            lc->esc_cases++; size_t cap = s.size() * (nb ? 6 : 3) + 1; C *dst = (C *)out.end_minus(cap * sizeof(C)); C *src = dst - w.size(); memcpy(src, w.data(), w.size() * sizeof(C));
+            int sig; Str enc = "J`" + s + fmt("`%d`%d`%s", plus, nb, A::name());
+            if ((sig = GUARD_ENTER()) != 0) { ctx->violation("", enc, fmt("%s escaping into the area that starts where the input range ends", signame(sig))); continue; }
+            C *end = A::EscapeEx(src, src + w.size(), dst, plus, nb); GUARD_LEAVE(); Str expect = ref_escape(s, plus, nb);
+            if (!end) ctx->violation("", enc, "returned NULL although the output area only starts where the input range ends (no overlap)");
+            else if (end < dst || end > dst + cap - 1 || *end != 0 || narrow<C>(dst, end) != expect) ctx->violation("", enc, "wrong output when the output area starts where the input range ends");
+            else if (narrow<C>(src, src + w.size()) != s) ctx->violation("", enc, "the input was changed");
+        }
+    }
     void escape_case(const Str &s, int only_plus = -1, int only_nb = -1) {
         std::basic_string<C> w = widen<C>(s);
         for (int plus = 0; plus < 2; plus++) for (int nb = 0; nb < 2; nb++) for (int entry = 0; entry < 2; entry++) {
@@ -126,6 +139,7 @@ void run(Ctx &ctx) {
     for (int c = 1; c < 256; c++) if (ctx.mine(idx++)) { Str s(1, (char)c); ra.escape_case(s); rw.escape_case(s); }
     const Str A14 = Str("aZ0~ +%\r\n\x01\x7f\x80\xff/", 14);
     for (char a : A14) for (char b : A14) if (ctx.mine(idx++)) { Str s; s += a; s += b; ra.escape_case(s); rw.escape_case(s); }
+    for (const char *t : { "a", "a b", "\n", "%", "abc\xff", "aaaaaaaaaaaaaaaaaaaaaaaa" }) if (ctx.mine(idx++)) { ra.adjacent_case(t); rw.adjacent_case(t); }
     all_strings(ctx, Str("a +%\r\n\xff", 7), Le, [&](const Str &s) { if (ctx.expired()) return; ra.escape_case(s); rw.escape_case(s); });
     all_strings(ctx, Str("%0aAdDg+x\r\n", 11), Lu, [&](const Str &s) { if (ctx.expired()) return; ra.unescape_case(s); rw.unescape_case(s); });
     // every '%' followed by two characters out of the 22 hexadecimal digits and their six neighbours in the code table (all 256 values in every
@@ -180,6 +194,7 @@ void replay(Ctx &ctx, const Str &enc) {
     if (p[0] == "H") { unsigned long x = 0; int shape = 0; if (sscanf(p[1].c_str(), "%lx.%d", &x, &shape) == 2) wide_escape_case(ctx, lc, x, shape, a, b); return; }
     if (p[0] == "W") { unsigned long x = 0, y = 0; int order = 0; if (sscanf(p[1].c_str(), "%lx.%lx.%d", &x, &y, &order) != 3) return; std::wstring w = L"a%"; w += (wchar_t)(order ? y : x); w += (wchar_t)(order ? x : y); w += L"b%41"; std::wstring want = w.substr(0, w.size() - 3) + L"A";
         std::wstring buf = w; buf.push_back(0); const wchar_t *end = uriUnescapeInPlaceExW(&buf[0], URI_FALSE, (UriBreakConversion)a); if (!end || std::wstring((const wchar_t *)buf.data(), end) != want) ctx.violation("", enc, "a '%' followed by a wide code point above 255 (low byte a hex digit) was taken for a percent-encoding"); return; }
+    if (p[0] == "J") { if (p[4] == "A") { Runner<char> r(&ctx, &lc, 520, 1620); r.adjacent_case(p[1]); } else { Runner<wchar_t> r(&ctx, &lc, 520, 1620); r.adjacent_case(p[1]); } return; }
     if (p[4] == "A") { Runner<char> r(&ctx, &lc, 520, 1620); if (p[0] == "E") r.escape_case(p[1], a, b); else r.unescape_case(p[1], a, b); }
     else { Runner<wchar_t> r(&ctx, &lc, 520, 1620); if (p[0] == "E") r.escape_case(p[1], a, b); else r.unescape_case(p[1], a, b); }
 }
